@@ -336,7 +336,7 @@ func compareRuns(c *ctx, seg segment.Segment, mode uint32, ndocs uint64, field, 
 }
 
 func checkC07(c *ctx) {
-	c.Rule = "(A) bounded-exhaustive: every postings set P over N documents x chunk sizes {1,2,3,N} x every exclusion set (and nil) x every legal Next/Advance sequence up to length L x detail-flag triples, in memory and mmap-opened (quick: N=4, L=2, strided over (P, chunk size); thorough: N<=6, L=3); (B) random larger instances (up to 60 docs, modes incl. 1025/1026, sequences up to 14 calls) with ReplaceActual by a random subset before the first call; (C) single-hit encodings obtained through merges; (E) postings lists of 1030 / 1100 / 2100 entries in chunk modes 1025 and 1026 with exclusion sets of 0 / 90 / 700 entries (the live count crosses a multiple of 1024), drained with Next and walked with Next/Advance; (D) preallocation-reuse histories threading one PostingsList and one iterator object through different terms, absent terms, absent fields and segments; each run compared call by call with the extracted iterator machine (Iter.v / Iter1.v); Count, ActualBitmap and DocNum1Hit compared with the non-excluded hits; non-trivial = postings list with >= 2 hits and >= 2 calls"
+	c.Rule = "(G) a term present in all of 12 documents with locations in one or two of them (empty location chunks), chunk sizes 3/4/6/12, every Advance target; (A) bounded-exhaustive: every postings set P over N documents x chunk sizes {1,2,3,N} x every exclusion set (and nil) x every legal Next/Advance sequence up to length L x detail-flag triples, in memory and mmap-opened (quick: N=4, L=2, strided over (P, chunk size); thorough: N<=6, L=3); (B) random larger instances (up to 60 docs, modes incl. 1025/1026, sequences up to 14 calls) with ReplaceActual by a random subset before the first call; (C) single-hit encodings obtained through merges; (E) postings lists of 1030 / 1100 / 2100 entries in chunk modes 1025 and 1026 with exclusion sets of 0 / 90 / 700 entries (the live count crosses a multiple of 1024), drained with Next and walked with Next/Advance; (D) preallocation-reuse histories threading one PostingsList and one iterator object through different terms, absent terms, absent fields and segments; each run compared call by call with the extracted iterator machine (Iter.v / Iter1.v); Count, ActualBitmap and DocNum1Hit compared with the non-excluded hits; non-trivial = postings list with >= 2 hits and >= 2 calls"
 	c.Assumptions = append(c.Assumptions, "Advance targets lie strictly beyond the last returned document (API contract, as in the statement)",
 		"ReplaceActual happens before the first Next/Advance, with a subset of the actual bitmap (the only caller pattern)")
 	// ---------- (A) ----------
